@@ -46,6 +46,7 @@ TCkpt == /\ IsEv("Ckpt")
                       /\ CASE Ev.k = "ctxStart" -> sub[i] = "ctxStart"
                             [] Ev.k = "start" -> sub[i] = "start"
                             [] Ev.k = "succeed" -> sub[i] = "succeed"
+                            [] Ev.k = "wstart" -> sub[i] = "wstart"
                             [] Ev.k = "ctxEnd" -> sub[i] = "atom" /\ fout'[i] \in {"ok", "fail"}
                             [] OTHER -> FALSE
          /\ Consume
@@ -53,7 +54,7 @@ TCkpt == /\ IsEv("Ckpt")
 TBodyEnd == /\ IsEv("BodyEnd")
             /\ LET i == Ev.i IN
                IF Ev.out \in {"susp", "tsusp", "bte"}
-                 THEN wph[i] = "run" /\ sub[i] = "atom" /\ Atom(i) = Ev.out /\ i \notin chk /\ BodyStep(i) /\ H3
+                 THEN wph[i] = "run" /\ sub[i] = (IF Ev.out = "bte" THEN "atom" ELSE "park") /\ Atom(i) = Ev.out /\ i \notin chk /\ BodyStep(i) /\ H3
                  ELSE fout[i] = Ev.out /\ wph[i] # "run" /\ NoOp
             /\ Consume
 
@@ -84,7 +85,7 @@ SilentStep ==
   /\ \/ ((MainSubmit \/ MainWake \/ MainCancel) /\ H3 /\ H4)
      \/ \E i \in Br :
           \* body steps without an observable effect: the orphan check that passes, the function, atom selection
-          \/ (wph[i] = "run" /\ BodyStep(i) /\ H3 /\ fout'[i] = fout[i] /\ (i \in chk' \/ i \notin chk) /\ reg' = reg
+          \/ (wph[i] = "run" /\ BodyStep(i) /\ H3 /\ fout'[i] = fout[i] /\ (i \in chk' \/ i \notin chk)
               /\ ~(i \in chk /\ i \notin chk'))
           \* done-callback steps that do not set the completion event for the first time
           \/ (CbWrite(i) /\ CbSnapW(i) /\ H4 /\ event' = event)
